@@ -20,7 +20,11 @@ LEVEL_NOTE = ("Partial: Pebble's LSM itself (memtable, sstable writer/reader, co
               "(data sets of ~100-650 keys in quick, up to 200 000 keys in thorough, the latter against the in-harness sorted "
               "reference only). Trusted: Coq kernel, extraction (ExtrOcamlBasic), the Go harness and its canonicalisation. "
               "AbbreviatedKey contract is proved for byte values < 256. Two defects were found and repaired in /repo: O-9 "
-              "(bytewise Separator/Successor) and O-24 (Get(\"\", LOWER|FLOOR) returned the greatest key).")
+              "(bytewise Separator/Successor) and O-24 (Get(\"\", LOWER|FLOOR) returned the greatest key). "
+              "DB layer (db.List / db.RangeScan / db.Get above kv.KV): no separate Coq model of db.go's iterator wrappers; the "
+              "extracted kv_range_scan (c11_range_is_filter, c11_point_lookups_match_reference) is the reference for the "
+              "projection of the results on user keys, db.Get comparison types are spec verdicts only. Returned internal "
+              "'__oxia/' keys are ignored and counted (reads do not filter internal keys: recorded observation outside C11).")
 TRUSTED = ["modelled not verified: Pebble v1.1.2 as an ordered map with bounded iterators given a lawful comparer "
            "(differentially tested on disk by the kvengine leg)",
            "independent oracle inside the harness: segment order re-implemented from the specification (bytes.Split), "
@@ -32,12 +36,22 @@ RULE = ("keyorder: all ordered pairs of keys of length <= 2 over {. / 0 - a b 00
         "non-trivial = distinct non-empty keys at least one of which has a '/', distinct by the pair. "
         "kvengine: per -n three data sets (350-650 puts with 100-2000 B values; 60-120 puts with 66-70 kB values = one key per "
         "64 KiB block; 40 neighbour pairs around '/' one key per block), each with deletes, range deletes, overwrites, batch "
-        "reads, flush/compact/reopen and four read phases; distinct by data set")
+        "reads, flush/compact/reopen and four read phases; distinct by data set. "
+        "dbscan: per -n one kv.DB with 36-75 user keys (flat, '/'-rooted, first segment below / around / above '__oxia') "
+        "written by ProcessWrite, 14 fixed + 10 random ranges x List and RangeScan x 3 phases (memtable, flushed, reopened "
+        "after overwrites/deletes/range deletes), 20 probes x 5 comparison types; distinct by (phase, live keys, range)")
 LEGS = [
     {"name": "keyorder", "harness": "keyorder", "model": "keyorder", "n_quick": 30000, "n_thorough": 300000,
      "corpus": "corpus/keyorder", "timeout": 600, "timeout_thorough": 3000},
     {"name": "kvengine", "harness": "kvengine", "model": "keyorder", "n_quick": 10, "n_thorough": 300,
      "corpus": "corpus/keyorder", "timeout": 600, "timeout_thorough": 3000},
+    # DB layer above kv.KV: real kv.DB (NewDB over on-disk Pebble via kvsafe) with its internal "__oxia/..." keys present,
+    # user keys written through ProcessWrite on both sides of the internal region of the slash order; db.List / db.RangeScan
+    # over ranges below, above and ACROSS that region and db.Get FLOOR/CEILING/LOWER/HIGHER, in memory / after flush /
+    # after reopen; projection on user keys compared with the extracted kv_range_scan and with the in-harness reference;
+    # verdicts dbscan:missing-key / dbscan:unexpected-key / dbscan:out-of-order / dbscan:wrong-value / dbget:differs-from-reference
+    {"name": "dbscan", "harness": "kvengine", "model": "keyorder", "n_quick": 8, "n_thorough": 400,
+     "corpus": "corpus/keyorder", "args": ["-mode", "db"], "timeout": 600, "timeout_thorough": 3000},
     # client-side merge of multi-shard range scans (harness and model owned by C20; theorem c11_merge_sorted): sorted
     # per-shard streams over the comparer-stressing alphabet, 2..5 shards, through aggregateAndSortRangeScanAcrossShards
     # directly and through clientImpl.RangeScan; compared with the extracted merge, verdicts scan:merged-out-of-slash-order
